@@ -338,3 +338,137 @@ Proof.
   destruct (run_rel B false _ _ W R) as (d & L1 & L2 & _). exists d.
   unfold rrun32 in L1, L2. rewrite L1, L2. split; f_equal; destruct s; reflexivity || (destruct s'; reflexivity).
 Qed.
+
+(* ================= C16 (call level): the target rectangle's origin only appears in Draw ================= *)
+
+Definition move_to (s : S) (x0 y0 : Z) : S :=
+  mkR f32 x0 y0 (r_w s) (r_h s) (r_scx s) (r_bx s) (r_scy s) (r_by s) (r_vb s) (r_pal s)
+      (r_lod0 s) (r_lod1 s) (r_csel s) (r_nsel s) (r_disabled s) (r_pst s) (r_psx s) (r_psy s) (r_paint s)
+      (r_creg s) (r_nreg s) (z_penx s) (z_peny s) (z_firstx s) (z_firsty s) (r_log s).
+
+(* one renderer step commutes with moving the rectangle, except that a Draw it appends has the moved rectangle *)
+Definition shift_call (dx dy : Z) (c : rcall f32) : rcall f32 :=
+  match c with
+  | RDraw a b c' d p => RDraw (a + dx) (b + dy) (c' + dx) (d + dy) p
+  | other => other
+  end.
+
+Definition shifted (dx dy : Z) (s : S) : S :=
+  with_log (move_to s (r_x0 s + dx) (r_y0 s + dy)) (map (shift_call dx dy) (r_log s)).
+
+Definition commutes_shift (f : S -> S) : Prop := forall dx dy s, f (shifted dx dy s) = shifted dx dy (f s).
+
+Lemma shift_comp f g : commutes_shift f -> commutes_shift g -> commutes_shift (fun s => g (f s)).
+Proof. intros Hf Hg dx dy s. cbn beta. rewrite Hf, Hg. reflexivity. Qed.
+
+Lemma shift_emit_keep (c : S -> rcall f32) :
+  (forall dx dy s, c (shifted dx dy s) = c s) -> (forall s a b c' d p, c s <> RDraw a b c' d p) ->
+  commutes_shift (fun s => emit_keep N32 s (c s)).
+Proof.
+  intros H ND dx dy s. rewrite H. destruct s. unfold shifted, emit_keep, emit, move_to, with_log. proj.
+  destruct (c _) eqn:E; try (cbn; rewrite map_app; reflexivity).
+  exfalso. eapply ND. exact E.
+Qed.
+
+Lemma shift_arc_segment cx cy t1 t2 rx ry cp sp : commutes_shift (fun s => arc_segment s cx cy t1 t2 rx ry cp sp).
+Proof.
+  unfold arc_segment. apply shift_emit_keep.
+  - intros dx dy s. destruct s. reflexivity.
+  - intros s a b c d p. discriminate.
+Qed.
+
+Lemma shift_arc_loop k : forall i n cx cy t1 dt rx ry cp sp,
+  commutes_shift (fun s => arc_loop k i n s cx cy t1 dt rx ry cp sp).
+Proof.
+  induction k as [|k IH]; intros i n cx cy t1 dt rx ry cp sp; cbn [arc_loop].
+  - intros dx dy s. reflexivity.
+  - apply (shift_comp (fun s => arc_segment s cx cy _ _ rx ry cp sp)
+                      (fun s => arc_loop k (i + 1) n s cx cy t1 dt rx ry cp sp)).
+    + apply shift_arc_segment.
+    + apply IH.
+Qed.
+
+Lemma shift_set_pst_none : commutes_shift set_pst_none.
+Proof. intros dx dy s. destruct s. reflexivity. Qed.
+
+Lemma shift_abs_arc rx ry rot la sw x y : commutes_shift (fun s => abs_arc s rx ry rot la sw x y).
+Proof.
+  intros dx dy s. unfold abs_arc. rewrite shift_set_pst_none. set (s' := set_pst_none s).
+  destruct (negb (fgt F64 (dabs (to64 rx)) d0 && fgt F64 (dabs (to64 ry)) d0)).
+  - apply (shift_emit_keep (fun s => RLineTo (absX N32 s x) (absY N32 s y))).
+    + intros dx0 dy0 s0. destruct s0; reflexivity.
+    + intros s0 a b c d p. discriminate.
+  - unfold unabsX, unabsY.
+    change (z_penx (shifted dx dy s')) with (z_penx s'). change (z_peny (shifted dx dy s')) with (z_peny s').
+    change (r_scx (shifted dx dy s')) with (r_scx s'). change (r_scy (shifted dx dy s')) with (r_scy s').
+    change (r_bx (shifted dx dy s')) with (r_bx s'). change (r_by (shifted dx dy s')) with (r_by s').
+    cbv zeta. apply shift_arc_loop.
+Qed.
+
+Lemma shift_arc32 rel rx ry rot la sw x y : commutes_shift (fun s => arc32 s rel rx ry rot la sw x y).
+Proof.
+  unfold arc32. destruct rel; [|apply shift_abs_arc].
+  intros dx dy s. unfold relVX, relVY, relX, relY, unabsX, unabsY.
+  change (z_penx (shifted dx dy s)) with (z_penx s). change (z_peny (shifted dx dy s)) with (z_peny s).
+  change (r_scx (shifted dx dy s)) with (r_scx s). change (r_scy (shifted dx dy s)) with (r_scy s).
+  change (r_bx (shifted dx dy s)) with (r_bx s). change (r_by (shifted dx dy s)) with (r_by s).
+  apply shift_abs_arc.
+Qed.
+
+Lemma shift_rdraw op a : commutes_shift (fun s => rdraw N32 s op a).
+Proof.
+  intros dx dy s. destruct s as [x0 y0 w h scx bx scy by_ vb pal l0 l1 cs ns dis pst psx psy pa creg nreg px py fx fy lg].
+  unfold rdraw, shifted, move_to, with_log. proj.
+  destruct dis; [reflexivity|].
+  repeat match goal with
+         | |- context [if ?c then _ else _] => destruct c
+         end; try (cbn; rewrite ?map_app; reflexivity).
+  all: unfold smooth_pt; proj;
+    match goal with |- context [negb (?p =? ?k)] => destruct (negb (p =? k)) end; cbn; rewrite ?map_app; reflexivity.
+Qed.
+
+Lemma shift_start_path adj x y : commutes_shift (fun s => start_path N32 s adj x y).
+Proof.
+  intros dx dy s. destruct s as [x0 y0 w h scx bx scy by_ vb pal l0 l1 cs ns dis pst psx psy pa creg nreg px py fx fy lg].
+  unfold start_path, shifted, move_to, with_log. proj.
+  set (flat := reg_at creg (cs - adj)).
+  destruct (valid_premul flat).
+  - destruct ((ca flat =? 0) || negb (fle F32 l0 (of_Z F32 h) && flt F32 (of_Z F32 h) l1)); cbn; rewrite ?map_app; reflexivity.
+  - destruct (valid_gradient flat).
+    + unfold init_gradient. proj.
+      destruct (grad_stops _ _ _ _ _ _ _) as [stops|]; [destruct (length stops <? 2)%nat|];
+        cbn [fst snd orb]; destruct (negb (fle F32 l0 (of_Z F32 h) && flt F32 (of_Z F32 h) l1));
+        cbn; rewrite ?map_app; reflexivity.
+    + cbn. reflexivity.
+Qed.
+
+Lemma shift_end_path : commutes_shift (fun s => end_path N32 s).
+Proof.
+  intros dx dy s. destruct s as [x0 y0 w h scx bx scy by_ vb pal l0 l1 cs ns dis pst psx psy pa creg nreg px py fx fy lg].
+  unfold end_path, shifted, move_to, with_log. proj. destruct dis; [reflexivity|].
+  cbn. rewrite !map_app. cbn. do 3 f_equal. f_equal; lia.
+Qed.
+
+Theorem shift_rstep c : commutes_shift (fun s => rstep32 s c).
+Proof.
+  unfold rstep32, rstep. destruct c as [vb pal|v|v|adj incr col|adj incr x|l0 l1|adj x y|op a|rel rx ry rot la sw x y|].
+  - intros dx dy s. destruct s; reflexivity.
+  - intros dx dy s. destruct s; reflexivity.
+  - intros dx dy s. destruct s; reflexivity.
+  - intros dx dy s. destruct s; reflexivity.
+  - intros dx dy s. destruct s; reflexivity.
+  - intros dx dy s. destruct s; reflexivity.
+  - apply shift_start_path.
+  - apply shift_rdraw.
+  - intros dx dy s. change (r_disabled (shifted dx dy s)) with (r_disabled s).
+    destruct (r_disabled s); [reflexivity|apply shift_arc32].
+  - apply shift_end_path.
+Qed.
+
+(* rendering into a rectangle at any offset: the same rasteriser calls, only the Draw rectangles move *)
+Theorem offset_invariance l : forall dx dy s,
+  rrun32 (shifted dx dy s) l = shifted dx dy (rrun32 s l).
+Proof.
+  unfold rrun32. induction l as [|c r IH]; intros dx dy s; [reflexivity|].
+  cbn [fold_left]. rewrite (shift_rstep c dx dy s). apply IH.
+Qed.
